@@ -1,6 +1,6 @@
 """C13 — Parsing respects the grammar (structural clauses)."""
 
-from ..rules import frontend, tables, textparse
+from ..rules import frontend, pairing, tables, textparse
 
 
 def run(ctx, rep):
@@ -10,6 +10,8 @@ def run(ctx, rep):
     frontend.rule_duplicated_paths(ctx, rep, "C13-R4")
     tables.rule_keyword_tables(ctx, rep, "C13-R5")
     textparse.rule_ascii_digit_scanners(ctx, rep, "C13-R6", modules=("lexer",))
+    pairing.rule_lookahead_restores(ctx, rep, "C13-R7")
+    pairing.rule_contextmanager_cleanup(ctx, rep, "C13-R8", where=lambda f: f.module.name in ("parser", "lexer"), what=" of the parser")
     rep.undecided += [
         "layout independence and print/parse round trip over all token sequences (no printer exists in the repo; generative/differential property)",
         "alternative literal spellings denote the same value (value property)",
